@@ -22,7 +22,7 @@ def worker(job):
     seed, tier = job
     rng = random.Random(f"c15/{seed}")
     fam = None if seed % 2 else ["index", "index", "layout", "layout", "reduce", "nullable", "creation", "sort", "cast", "where"]
-    prog = progs.generate(rng, seed=seed, families=fam, sizes={"A": rng.choice([1, 2, 3]), "B": rng.choice([1, 2, 3])})
+    prog = progs.generate(rng, seed=seed, families=fam, size_generic=True, erase_static=(seed % 4 == 2), sizes={"A": rng.choice([1, 2, 3]), "B": rng.choice([1, 2, 3])})
     if prog is None:
         return None
     n = len(prog["inputs"])
